@@ -44,7 +44,7 @@ def main():
         open(p, 'w').write(s.replace(old, new, 1))
         try:
             t0 = time.time()
-            r = sh(f'cd /verif && VERIF_REPLAY_DIR=/tmp/mutant-replays ./check {prop} --tier quick')
+            r = sh(f'cd /verif && VERIF_EVIDENCE_DIR=/tmp/mutant-evidence VERIF_REPLAY_DIR=/tmp/mutant-replays ./check {prop} --tier quick')
             dt = time.time() - t0
             line = [l for l in r.stdout.splitlines() if l.startswith('violation in run') or l.startswith('VIOLATION') or l.startswith('minimised')]
             other = [l for l in r.stdout.splitlines() if l.startswith('note:')]
@@ -57,7 +57,7 @@ def main():
             if status == 'MISSED':
                 # which other property's check reports it?
                 for alt in ALT.get(mid, []):
-                    r2 = sh(f'cd /verif && VERIF_REPLAY_DIR=/tmp/mutant-replays ./check {alt} --tier quick')
+                    r2 = sh(f'cd /verif && VERIF_EVIDENCE_DIR=/tmp/mutant-evidence VERIF_REPLAY_DIR=/tmp/mutant-replays ./check {alt} --tier quick')
                     l2 = [l for l in r2.stdout.splitlines() if l.startswith('violation in run')]
                     print(f'      alt {alt}: rc={r2.returncode} {l2[0][:220] if l2 else ""}')
             results.append((mid, prop, status))
